@@ -13,6 +13,17 @@ search (oracle): on the real code: sugar vs spelled-out outcomes; nested vs flat
                  hypotheses hold); pools of shared expressions x random composition sequences x interleaved uses:
                  the behavioural fingerprint of EVERY pool member is the same whatever was composed / copied / named /
                  used (streamlined) in between, and a copy has the fingerprint of its original.
+part C (harness/props/c12_hist.py): histories in which an IN-PLACE operation (ignore, leave_whitespace,
+                 ignore_whitespace, set_whitespace_chars, add_parse_action, set_name) is applied to a composite / copy
+                 AFTER composition.  proof: heap model (elements + identity of their ignoreExprs list objects) with
+                 copyOp / ignorePush / wsOp transcribed from core.py; ignore_frame / ws_frame / copy_frame (expressions
+                 whose object graph is disjoint from the operation's footprint parse identically, all inputs) under the
+                 invariant "every element owns its list object" (kept by copyOp_spec / wsOp_spec / ignore_inv).
+                 tie: every real copy() / ignore() / leave_whitespace() / ignore_whitespace() call of a history is
+                 compared with the model operation on the heap extracted before the call (driver: heapMatch,
+                 heapMatch_parse_eq), and invCheck is evaluated on the live heaps.  oracle: reference build (without the
+                 in-place statements) vs test build, every variable outside the footprints, on inputs with leading /
+                 interior blanks and comment text.
 """
 from __future__ import annotations
 
@@ -39,15 +50,35 @@ META = dict(
          "(&), Or/Each flattening, value semantics of the real mutable objects (pool fingerprints under three use "
          "schedules). Excluded / tracked: documented mutators (ignore(), +=, |=, set_parse_action on the object, "
          "parse_with_tabs, transform_string's permanent keepTabs), IndentedBlock's action injection in And.streamline, "
-         "and the regions of six registered findings (known_findings.json).",
+         "and the regions of the registered findings (known_findings.json). "
+         "IN-PLACE OPERATIONS AFTER COMPOSITION (heap model PPModel/Mod/HeapOps.lean: elements + identity of their "
+         "ignoreExprs list objects; copy(), ignore(<Suppress>), leave_whitespace()/ignore_whitespace() transcribed), FULL, "
+         "all inputs/locations/flags/fuels: agree_on_closed (tables that agree on a set closed under 'refers to' parse "
+         "identically there), ignore_frame (x.ignore(s) does not change any expression whose object graph is disjoint "
+         "from the elements reachable from x, provided no two elements hold the same list object), ws_frame "
+         "(leave_whitespace/ignore_whitespace change nothing that does not contain x), copy_frame, and the invariant: "
+         "copyOp_spec / wsOp_spec / ignore_inv keep 'every element owns its list object' and only allocate; "
+         "invCheck_sound, heapMatch_parse_eq (what the driver's verdicts mean). alias_breaks_ignore_frame: the invariant "
+         "is needed (proved witness); enhance_copy_shares_child: proved witness that a copy of a Group/Opt/Forward/... "
+         "shares its contained expression, so ignore() on the copy changes the original (replayed on the real code, "
+         "registered finding) - which is why ignore_frame asks for disjoint object graphs. Not modelled: SkipTo.ignore "
+         "(private ignorer), copy of an unassigned Forward, Each, set_whitespace_chars/add_parse_action/set_name "
+         "(oracle only).",
     note="Trusted: Lean kernel; axioms propext/Classical.choice/Quot.sound; the shared parse model (validated "
          "differentially every run); gram.extract_multi reading the attributes of the live objects; the Python pairing "
          "is only a candidate - simCheck/streamCheck/flattenHyp are evaluated by the compiled Lean driver. The Lean side "
          "proves value semantics for the MODEL of construction (append-only tables) and for the streamline rewrite; "
-         "that the real operators never mutate an operand is decided by the fingerprint oracle.",
+         "that the real operators never mutate an operand is decided by the fingerprint oracle. The heap "
+         "operations are hand transcriptions of core.py (copy 554-560/4031-4035, ignore 1836-1845/3964-3974/4749-4755/"
+         "5890-5895, leave_whitespace 1780-1799/3939-3962/4731-4747/5764-5770), tied on every run: each real call of the "
+         "generated histories is replayed by the compiled model on the heap extracted from the live objects "
+         "(gram.extract_multi + id() of the ignoreExprs lists) and compared (heapMatch); `in` is identity in the model "
+         "and ParserElement.__eq__ in the code (histories with two equal ignorables are not tied); the allocation "
+         "Suppress(other.copy()) inside ignore() is taken from the live objects.",
     technique="Lean 4 proofs (renaming/simulation invariance of the parse model, frame, copy, flattening lemma + "
-              "counter-witnesses) + driver-checked structural tie on extracted object graphs + differential "
-              "fingerprint oracle on the real code",
+              "counter-witnesses; heap model of copy/ignore/leave_whitespace with frame theorems and an aliasing "
+              "invariant) + driver-checked structural tie on extracted object graphs and heaps + differential "
+              "fingerprint oracles on the real code (use schedules; histories with in-place operations)",
     design="§5 C12",
 )
 
@@ -64,6 +95,19 @@ THEOREMS = [
     "PP.Parse.andRest_splice",
     "PP.Parse.and_flatten_fails_lineStart",
     "PP.Parse.and_flatten_fails_errorStop",
+    # in-place operations after composition: the object graph as a heap (PPModel/Mod/HeapOps.lean)
+    "PP.Heap.agree_on_closed",
+    "PP.Heap.ignore_frame",
+    "PP.Heap.ws_frame",
+    "PP.Heap.copy_frame",
+    "PP.Heap.ignorePush_frame",
+    "PP.Heap.ignore_inv",
+    "PP.Heap.copyOp_spec",
+    "PP.Heap.wsOp_spec",
+    "PP.Heap.invCheck_sound",
+    "PP.Heap.heapMatch_parse_eq",
+    "PP.Heap.alias_breaks_ignore_frame",
+    "PP.Heap.enhance_copy_shares_child",
 ]
 
 ENTRIES = [("parse", ()), ("parseAll", ()), ("scan", (100, True, False))]
@@ -687,6 +731,10 @@ def pending_flatten_risky(pp, e, seen=None):
             return True  # Or/Each flattening: not covered by a theorem
         if isinstance(e, pp.And) and len(e.exprs) == 2:
             for pos, N in ((0, e.exprs[0]), (1, e.exprs[-1])):
+                if isinstance(N, pp.And) and not N.parseAction and N.resultsName is None and not N.exprs:
+                    # an EMPTY nested And (DelimitedList(max=1): content + (delim + content) * (0, 0)) raises
+                    # IndexError -> ParseException until streamline flattens it away; flattenHyp is false for it
+                    return True
                 if isinstance(N, pp.And) and not N.parseAction and N.resultsName is None and N.exprs:
                     stops = [type(x) is pp.And._ErrorStop for x in N.exprs]
                     if pos == 0 and any(stops):
@@ -698,6 +746,21 @@ def pending_flatten_risky(pp, e, seen=None):
                                 or [id(x) for x in b0.ignoreExprs] != [id(x) for x in N.ignoreExprs]):
                             return True
     return any(pending_flatten_risky(pp, x, seen) for x in corr_parse._children(pp, e))
+
+
+def unstreamlined_targets(prog):
+    """every variable a program uses in a position that is never streamlined (stop_on / fail_on / SkipTo ignore):
+    also those of the BASE program (gen.py ManyStop / SkipTo), which compose_steps' own `targets` does not list"""
+    out = []
+    for st in prog:
+        op, a = st[1], st[2:]
+        if op in ("ZeroOrMore", "OneOrMore") and len(a) > 1 and a[1] is not None:
+            out.append(a[1])
+        elif op == "[:]":
+            out.append(a[2])
+        elif op == "SkipTo" and len(a) > 1 and isinstance(a[1], dict):
+            out += [a[1][k] for k in ("fail_on", "ignore") if a[1].get(k)]
+    return [t for t in dict.fromkeys(out) if isinstance(t, str)]
 
 
 def pool_job(job):
@@ -712,7 +775,7 @@ def pool_job(job):
         out["skip"] = f"build:{type(ex).__name__}"
         return out
     try:
-        if any(pending_flatten_risky(pp, b0.env[t]) for t in job["targets"] if t in b0.env):
+        if any(pending_flatten_risky(pp, b0.env[t]) for t in list(job["targets"]) + unstreamlined_targets(prog) if t in b0.env):
             out["skip"] = "region:streamline_changes_unstreamlined_user"
             return out
     except RecursionError:
@@ -997,6 +1060,20 @@ def witness_unstreamlined_user(pp):
     return before, after
 
 
+def witness_unstreamlined_user_empty_and(pp):
+    """same finding, reached through DelimitedList(e, max=1) = And([e, And([])]): the EMPTY nested And raises
+    IndexError -> ParseException until streamline flattens it away, so the unstreamlined stop_on never matches"""
+    def mk():
+        e6 = pp.DelimitedList(pp.Word("a", "b"), delim="+", min=1, max=1)
+        return e6, pp.OneOrMore(pp.CharsNotIn("x\n", max=2), stop_on=e6)
+    s = "ab +ab +abb"
+    _, m1 = mk()
+    before = outcome(pp, m1, s)
+    e6, m1 = mk()
+    outcome(pp, e6, "a")
+    return before, outcome(pp, m1, s)
+
+
 def witness_forward_copy(pp):
     """C = F.copy() taken before F is assigned keeps the default whitespace flags"""
     F = pp.Forward()
@@ -1038,11 +1115,29 @@ def witness_each_copy(pp):
     return outcome(pp, mk(False), " a b"), outcome(pp, mk(True), " a b")
 
 
+def witness_enhance_copy(pp):
+    """Lean: PP.Heap.enhance_copy_shares_child.  ParserElement.copy is shallow for every ParseElementEnhance: the copy of
+    a Group shares the contained And with the original, so ignore() on the copy (which appends in place all the way
+    down) changes how the ORIGINAL parses"""
+    def mk():
+        return pp.Group(pp.Literal("a") + pp.Literal("b"))
+    s = "a#b"
+    g = mk()
+    before = outcome(pp, g, s)
+    g = mk()
+    c = g.copy()
+    c.ignore(pp.Literal("#"))
+    return before, outcome(pp, g, s)
+
+
 WITNESSES = [
     ("pending_skip_rewrites_shared_operand", witness_pending_skip,
      "x2 = e + 'd' with e = Literal('a') + (Literal('b') + ...) on 'a b zz d', fresh vs after x1 = e + 'c' was used"),
     ("streamline_changes_unstreamlined_user", witness_unstreamlined_user,
      "R = OneOrMore(Word('za'), stop_on=Y), Y = Literal('a') + (LineStart() + Literal('b')), on 'z a\\nb', before vs after Y.parse_string"),
+    ("streamline_changes_unstreamlined_user", witness_unstreamlined_user_empty_and,
+     "e6 = DelimitedList(Word('a','b'), delim='+', max=1) (= And([e, And([])])); m1 = OneOrMore(CharsNotIn('x\\n', max=2), stop_on=e6) on "
+     "'ab +ab +abb': ['ab',' +','ab',' +','ab','b'] while e6 was never used, ParseException(0) after e6.parse_string('a')"),
     ("forward_copy_before_assignment", witness_forward_copy,
      "F = Forward(); C = F.copy(); F <<= Word('a').leave_whitespace(); F vs C on ' a'"),
     ("streamline_recomputes_saveAsList", witness_savelist,
@@ -1051,6 +1146,9 @@ WITNESSES = [
      "E = Word('a') & Word('b'); E.copy().leave_whitespace() on ' a b': ParseException(0) if E was never used, ['a','b'] if E had parsed before"),
     ("copy_resets_whitechars", witness_copy_whitechars,
      "A = LineStart() + 'b'; A.scan_string('a\\n\\nb') reports the match at 2, A.copy().scan_string at 3"),
+    ("enhance_copy_shares_child", witness_enhance_copy,
+     "g = Group(Literal('a') + Literal('b')); c = g.copy(); c.ignore(Literal('#')): g.parse_string('a#b') raises "
+     "ParseException(1) before, returns [['a','b']] after"),
 ]
 
 
@@ -1082,7 +1180,16 @@ def run(ctx):
         "documented mutators are not used on shared members; transform_string (permanent keepTabs) is not used for "
         "fingerprints; nullable repetitions skipped; jobs inside the region of a registered finding (an unstreamlined "
         "stop_on/fail_on target that still contains a nested And failing flattenHyp, a dangling `...`, copy of an "
-        "unassigned Forward) are skipped and counted; non-trivial = distinct (program, form) / pool seed")
+        "unassigned Forward) are skipped and counted; non-trivial = distinct (program, form) / pool seed; "
+        "part C: histories = pool + operands with a non-skipping top over skipping descendants (NotAny over Keyword, "
+        "And led by a leave_whitespace()'d literal / CharsNotIn, Combine, wrapped ones) + composites / copies (copy, "
+        "expr(), expr('name'), set_results_name, copies of composites) + in-place statements on a composite / copy "
+        "(ignore, leave_whitespace, ignore_whitespace, set_whitespace_chars, add_parse_action, set_name; optionally "
+        "used before / after) + second independent composites; reference build without the in-place statements vs "
+        "test build; probes = every variable whose object graph is disjoint from the footprints (ignore: objects "
+        "reachable from the target; others: the target) and that was not built from a footprint object afterwards; "
+        "inputs sampled from the live objects with leading/interior blanks and '#' comment text; "
+        "non-trivial = distinct history seed")
     run_witnesses(ctx)
     # PART A
     sj = gen_sugar_jobs(ctx, ctx.budget(60, 500))
@@ -1097,6 +1204,13 @@ def run(ctx):
     # PART B
     mult = 4 if (ctx.broken and not ctx.fail_inputs) else 1
     run_pools(ctx, gen_pool_jobs(ctx, ctx.budget(500, 5000) * mult))
+    # PART C: in-place operations applied to composites / copies AFTER composition (harness/props/c12_hist.py)
+    from . import c12_hist
+    c12_hist.run_hist(ctx, c12_hist.gen_hist_jobs(ctx, ctx.budget(700, 7000)))
+    if ctx.broken and not ctx.fail_inputs:
+        # a broken obligation / tie is not a violation: search deeper for a failing input
+        c12_hist.run_hist(ctx, c12_hist.gen_hist_jobs(ctx, ctx.budget(700, 7000) * 3, tag="hist-deep"),
+                          stream="oracle:in-place-after-composition(deep)")
     ctx.assumptions.append("C12: results names, Each, Or-flattening and the value semantics of the real object graph are decided "
                            "by the real-code oracle; the theorems speak about the parse model and the table transformations")
 
@@ -1114,6 +1228,9 @@ def replay(data):
             return bool(r["mism"])
         if k in ("pool", "copy"):
             return bool(replay_pool(c))
+        if k == "mut":
+            from . import c12_hist
+            return bool(c12_hist.replay_hist(c))
         if k == "witness":
             for sig, fn, _ in WITNESSES:
                 if sig == c["witness"]:
